@@ -352,11 +352,13 @@ impl SendRateComp {
                     let current_limit = state.send_rate_tcp.min(recv_rate.saturating_mul(2));
                     let new_limit = (current_limit/2).max(MINIMUM_RATE);
                     self.recv_rate_set.reset(now_ms, new_limit/2);
-                    self.send_rate = state.send_rate_tcp.min(new_limit);
+                    self.send_rate = state.send_rate_tcp.min(new_limit).max(MINIMUM_RATE);
                 }
             }
             _ => panic!()
         }
+
+        self.send_rate = self.send_rate.min(self.max_send_rate);
 
         // Compute RTO for the new send rate, see section 4.4 step 2
         // No default RTT is specified by TFRC, but using RTT = 0 when no feedback has been
